@@ -220,8 +220,8 @@ def number_from_value_string(value_string, words, path):
         return eval(value_string, math.__dict__, {})
     except Exception as e:
         raise RuntimeError(
-            f'Error interpreting %s="%s" as a numeric expression: {e.__class__.__name__}: {e!s}%s'
-            % (path, value_string, words[0].where_str())
+            'Error interpreting %s="%s" as a numeric expression: %s: %s%s'
+            % (path, value_string, e.__class__.__name__, e, words[0].where_str())
         )
 
 
